@@ -108,9 +108,9 @@ theorem DurC_arun {cfg : Cfg} {dir : String} (ops : List AOp) : ∀ {s : St}, Du
 
 /-! ## the combined run invariant -/
 
-/-- the state `s` reached by a history with bookkeeping `h` -/
-structure RunInv (L : Nat) (cfg : Cfg) (dir : String) (s : St) (h : Hist) : Prop where
-  hinv : ∃ db g, HInv s db g h
+/-- the state `s` reached by a history with bookkeeping `h`; `used` ⊇ the batch ids in the files -/
+structure RunInv (L : Nat) (cfg : Cfg) (dir : String) (s : St) (h : Hist) (used : List Nat) : Prop where
+  hinv : ∃ db g, HInv s db g h used
   size : SizeOK L s
   dur : DurC cfg dir s
 
@@ -118,9 +118,19 @@ structure RunInv (L : Nat) (cfg : Cfg) (dir : String) (s : St) (h : Hist) : Prop
 def IdFromS (s : St) (op : AOp) (s' : St) : Prop :=
   ∀ b', batchOf s' = some b' → (∃ b, batchOf s = some b ∧ b'.id = b.id) ∨ b'.id ∈ bnewId op
 
-theorem RunInv_astep {L : Nat} {cfg : Cfg} {dir : String} {s : St} {h : Hist} (op : AOp)
-    (hr : RunInv L cfg dir s h) (hop : AOpOK op) (hid : bnewOK s h op) :
-    RunInv L cfg dir (astep s op).1 (hstep s h op) ∧ IdFromS s op (astep s op).1 := by
+theorem HInv.mono_used {s : St} {db : DB} {g : GDir} {h : Hist} {used used' : List Nat}
+    (hi : HInv s db g h used) (hsub : ∀ i ∈ used, i ∈ used') : HInv s db g h used' :=
+  ⟨hi.open_, hi.files, hi.units, hi.cur, hi.parked, fun x hx hne => hsub _ (hi.tags x hx hne),
+    fun b hb => hsub _ (hi.curUsed b hb)⟩
+
+theorem RunInv.mono_used {L : Nat} {cfg : Cfg} {dir : String} {s : St} {h : Hist} {used used' : List Nat}
+    (hr : RunInv L cfg dir s h used) (hsub : ∀ i ∈ used, i ∈ used') : RunInv L cfg dir s h used' := by
+  obtain ⟨db, g, hi⟩ := hr.hinv
+  exact ⟨⟨db, g, hi.mono_used hsub⟩, hr.size, hr.dur⟩
+
+theorem RunInv_astep {L : Nat} {cfg : Cfg} {dir : String} {s : St} {h : Hist} {used : List Nat} (op : AOp)
+    (hr : RunInv L cfg dir s h used) (hop : AOpOK op) (hid : bnewOK s h op) :
+    RunInv L cfg dir (astep s op).1 (hstep s h op) (bnewId op ++ used) ∧ IdFromS s op (astep s op).1 := by
   obtain ⟨db, g, hi⟩ := hr.hinv
   have hbs : ∀ b, db.batch = some b → BSize db.cfg.fileSize b := by
     obtain ⟨db1, _, e1, _, _, _, e5⟩ := hr.size
@@ -135,13 +145,21 @@ theorem RunInv_astep {L : Nat} {cfg : Cfg} {dir : String} {s : St} {h : Hist} (o
   exact h2 b' hb'
 
 theorem RunInv_arun {L : Nat} {cfg : Cfg} {dir : String} (ops : List AOp) :
-    ∀ {s : St} {h : Hist}, RunInv L cfg dir s h → (∀ op ∈ ops, AOpOK op) → IdsOK s h ops →
-      RunInv L cfg dir (arun s ops) (hrun s h ops) := by
+    ∀ {s : St} {h : Hist} {used : List Nat}, RunInv L cfg dir s h used → (∀ op ∈ ops, AOpOK op) →
+      IdsOK s h ops → RunInv L cfg dir (arun s ops) (hrun s h ops) (bnewIds ops ++ used) := by
   induction ops with
-  | nil => intro s h hr _ _; exact hr
+  | nil => intro s h used hr _ _; exact hr
   | cons op ops ih =>
-    intro s h hr hok hids
-    exact ih (RunInv_astep op hr (hok op (by simp)) hids.1).1 (fun o ho => hok o (by simp [ho])) hids.2
+    intro s h used hr hok hids
+    have := ih (RunInv_astep op hr (hok op (by simp)) hids.1).1 (fun o ho => hok o (by simp [ho])) hids.2
+    refine this.mono_used ?_
+    intro i hi
+    rw [bnewIds_cons]
+    simp only [List.mem_append] at hi ⊢
+    rcases hi with h1 | h2 | h3
+    · exact Or.inl (Or.inr h1)
+    · exact Or.inl (Or.inl h2)
+    · exact Or.inr h3
 
 /-! ## a simple sufficient condition for the batch-id side condition -/
 
@@ -181,12 +199,13 @@ theorem hstep_dirty_sub (s : St) (h : Hist) (op : AOp) : ∀ i ∈ (hstep s h op
     `NewBatch` are pairwise distinct, non-zero, not abandoned and different from the id of the
     current batch object, the batch-id side condition holds along the whole history -/
 theorem IdsOK_of_fresh {L : Nat} {cfg : Cfg} {dir : String} (ops : List AOp) :
-    ∀ {s : St} {h : Hist}, RunInv L cfg dir s h → (∀ op ∈ ops, AOpOK op) → (bnewIds ops).Nodup →
+    ∀ {s : St} {h : Hist} {used : List Nat}, RunInv L cfg dir s h used → (∀ op ∈ ops, AOpOK op) →
+      (bnewIds ops).Nodup →
       (∀ i ∈ bnewIds ops, i ≠ 0 ∧ i ∉ h.dirty ∧ ∀ b, batchOf s = some b → b.id ≠ i) → IdsOK s h ops := by
   induction ops with
-  | nil => intro s h _ _ _ _; trivial
+  | nil => intro s h used _ _ _ _; trivial
   | cons op ops ih =>
-    intro s h hr hok hnd hfr
+    intro s h used hr hok hnd hfr
     rw [bnewIds_cons] at hnd hfr
     have hid : bnewOK s h op := by
       cases op with
@@ -250,16 +269,34 @@ theorem pendingGet_ne_nil_mem (P : Pend) (i : Nat) (h : pendingGet P i ≠ []) :
     pieces of batches that were never sealed) -/
 def orphanIds (g : GDir) : List Nat := (replayLog (logOf g)).pending.map (·.1)
 
+theorem orphanIds_sub {g : GDir} {used : List Nat} (ht : ∀ x ∈ logOf g, x.1.batch ≠ 0 → x.1.batch ∈ used) :
+    ∀ i ∈ orphanIds g, i ∈ used := by
+  intro i hi
+  obtain ⟨e, he, rfl⟩ := List.mem_map.mp hi
+  obtain ⟨hne, x, hx, hxe⟩ := pendFrom_replayLog (logOf g) e he
+  rw [← hxe]
+  exact ht x hx (by rw [hxe]; exact hne)
+
+/-- all non-zero batch ids of the records of a ghost directory -/
+def tagIds (g : GDir) : List Nat := ((logOf g).map (fun x => x.1.batch)).filter (· ≠ 0)
+
+theorem tagIds_spec (g : GDir) : ∀ x ∈ logOf g, x.1.batch ≠ 0 → x.1.batch ∈ tagIds g := by
+  intro x hx hne
+  exact List.mem_filter.mpr ⟨List.mem_map.mpr ⟨x, hx, rfl⟩, by simpa using hne⟩
+
 /-- the run invariant at the start of a history: a handle without a batch object, whose log
-    denotes the units `U₀`; the abandoned ids are those with orphaned records in the log -/
+    denotes the units `U₀`; `dy` ⊇ the ids with orphaned records in the log count as abandoned;
+    `used` ⊇ the batch ids in the log -/
 theorem RunInv_start {s : St} {db : DB} {g : GDir} (hs : s.db = some db) (hf : Files s db g)
-    (hnb : db.batch = none) (hd : DInv s db) :
-    ∃ L, RunInv L db.cfg db.dir s ⟨unitsOfLog (logOf g), [], orphanIds g⟩ := by
+    (hnb : db.batch = none) (hd : DInv s db) (dy used : List Nat) (hdy : ∀ i ∈ orphanIds g, i ∈ dy)
+    (hused : ∀ x ∈ logOf g, x.1.batch ≠ 0 → x.1.batch ∈ used) :
+    ∃ L, RunInv L db.cfg db.dir s ⟨unitsOfLog (logOf g), [], dy⟩ used := by
   obtain ⟨L, hL⟩ := SizeOK_exists hs hf hnb
-  refine ⟨L, ⟨db, g, hs, hf, rfl, ?_, ?_⟩, hL, ⟨db, hs, hd, rfl, rfl⟩⟩
+  refine ⟨L, ⟨db, g, hs, hf, rfl, ?_, ?_, hused, ?_⟩, hL, ⟨db, hs, hd, rfl, rfl⟩⟩
   · intro b hb; rw [hnb] at hb; cases hb
   · intro i hi
-    exact Or.inl (pendingGet_ne_nil_mem _ i hi)
+    exact Or.inl (hdy i (pendingGet_ne_nil_mem _ i hi))
+  · intro b hb; rw [hnb] at hb; cases hb
 
 /-- units acknowledged before the history are simply carried along; the rest of the bookkeeping
     does not depend on them -/
@@ -428,9 +465,12 @@ theorem Durable_all {s : St} {db : DB} {g : GDir} (hs : s.db = some db) (hf : Fi
 /-- **the crash theorem in terms of the bookkeeping**: in a state reached by a history whose units
     are `h.units`, any crash image is opened successfully, the recovered mapping is that of a
     prefix of the units; the prefix is everything when no byte was lost and contains at least the
-    durable units.  The recovered handle satisfies the engine invariant for a ghost directory that
-    denotes exactly the surviving units. -/
-theorem crash_of_RunInv {L : Nat} {cfg : Cfg} {dir : String} {s : St} {h : Hist} (hr : RunInv L cfg dir s h)
+    durable units.  The recovered handle (directory `dir`, configuration `cfg'`, no batch object)
+    satisfies the engine invariant for a ghost directory that denotes exactly the surviving units
+    and whose batch ids are among `used`; with sane flush marks in the image it satisfies the
+    durability invariant; no merge directory appears. -/
+theorem crash_of_RunInv {L : Nat} {cfg : Cfg} {dir : String} {s : St} {h : Hist} {used : List Nat}
+    (hr : RunInv L cfg dir s h used)
     (sc : St) (cfg' : Cfg) (d dc : DirSt)
     (hd : s.world.get dir = some d) (hnodb : sc.db = none) (hdc : sc.world.get dir = some dc)
     (hunl : dc.locked = false) (himg : CrashImage d.data dc.data)
@@ -440,7 +480,10 @@ theorem crash_of_RunInv {L : Nat} {cfg : Cfg} {dir : String} {s : St} {h : Hist}
       (∀ k, absGet s' db' k = specOfUnits (h.units.take j) k) ∧
       (dc.data.map (fun x => (x.1, x.2.bytes.size)) = d.data.map (fun x => (x.1, x.2.bytes.size)) →
         j = h.units.length) ∧
-      (∀ n, Durable s n → n ≤ j) := by
+      (∀ n, Durable s n → n ≤ j) ∧
+      db'.dir = dir ∧ db'.cfg = cfg' ∧ (SaneMarks dc.data → DInv s' db') ∧
+      (∀ x ∈ logOf g', x.1.batch ≠ 0 → x.1.batch ∈ used) ∧
+      s'.world.get (mergeDirName dir) = none := by
   obtain ⟨db, g, hi⟩ := hr.hinv
   obtain ⟨db1, e1, hdinv, _, hdir⟩ := hr.dur
   rw [hi.open_] at e1
@@ -449,12 +492,13 @@ theorem crash_of_RunInv {L : Nat} {cfg : Cfg} {dir : String} {s : St} {h : Hist}
   have hlast : OnlyLastCut d.data := by
     have := hdinv.older
     rwa [dirOf_eq hd] at this
-  obtain ⟨g', s', db', hopen, hdb', hinv', _, hpre, hsync, hall⟩ :=
+  obtain ⟨g', s', db', hopen, hdb', hinv', _, hdir', hcfg'', hpre, hsync, hall, hdur, hnm⟩ :=
     crash_restart_files s sc db g cfg' d dc hi.files hd hlast hnodb hdc hunl himg hnomerge hcfg
   have hup := unitsOfLog_prefix hpre
   rw [hi.units] at hup
   have htake := prefix_eq_take hup
-  refine ⟨s', db', g', (unitsOfLog (logOf g')).length, hopen, hdb', hinv', htake, hup.length_le, ?_, ?_, ?_⟩
+  refine ⟨s', db', g', (unitsOfLog (logOf g')).length, hopen, hdb', hinv', htake, hup.length_le, ?_, ?_, ?_,
+    hdir', hcfg'', hdur, fun x hx hne => hi.tags x (hpre.subset hx) hne, hnm⟩
   · intro k
     rw [absGet_units hinv'.files hinv'.index k, ← htake]
   · intro hsame
